@@ -490,7 +490,7 @@ pub fn run(ctx: &Ctx) {
     crate::c02::drive(ctx, oracle_c08);
 
     let reach: Vec<Vec<usize>> = (0..NVER).map(crate::c01::reachable).collect();
-    let cases = ctx.tier.pick(60_000u64, 2_000_000u64);
+    let cases = ctx.tier.pick(400_000u64, 4_000_000u64);
     let strat = (0..NVER, any::<u32>(), proptest::collection::vec(any::<u32>(), 0..120), proptest::collection::vec(any::<u32>(), 0..160), 0..DEFECTS.len(), proptest::collection::vec(any::<u32>(), 1..12));
     run_prop(ctx, "injected", cases, strat, |(vi, tsel, tape, style, defect, sel), st| {
         let r = &reach[*vi];
